@@ -76,6 +76,10 @@ fn u32_of(s: &mut Side) -> Result<(u32, u64), E> {
 }
 fn fill_of(s: &mut Side, n: usize) -> Result<(Vec<u8>, u64), E> {
     s.arm();
+    if n > 4096 {
+        // a very long fill legitimately needs many readings (at most 255 rounds + priming, 3 readings each)
+        s.g.jitter_ref().unwrap().set_cap(s.reads() + STUCK_CAP + (n as u64 / 8 + 1) * (1 + 3 * 256));
+    }
     let r0 = s.reads();
     let g = s.g.as_mut();
     let v = sut(
@@ -191,7 +195,7 @@ fn out_step(real: &mut Side, twin: &mut Side, tr: &mut Track, op: &Op, i: usize,
                 return Err(E::End(viol("C16/fresh_collection_too_few_reads", key("fill_bytes"), format!("op #{}: fill_bytes({}) read the timer {} times, needs at least rounds*{} = {}", i, n, used, collections, tr.rounds * collections))));
             }
             if b != w || used != tused {
-                return Err(E::End(viol("C16/stale_or_reused_value", key("fill_bytes"), format!("op #{}: fill_bytes({}) (half pending: {}) = {:02x?} after {} readings; a generator that never had a half pending returns {:02x?} after {}", i, n, had.is_some(), b, used, w, tused))));
+                return Err(E::End(viol("C16/stale_or_reused_value", key("fill_bytes"), format!("op #{}: fill_bytes({}) (half pending: {}) = {:02x?} after {} readings; a generator that never had a half pending returns {:02x?} after {}", i, n, had.is_some(), &b[..b.len().min(48)], used, &w[..w.len().min(48)], tused))));
             }
             // a tail of 1..4 bytes is one next_u32: it leaves a half pending
             if (1..=4).contains(&(n % 8)) {
